@@ -11,6 +11,7 @@ FILES = {
     "dups": "alpha\nbeta\nalpha\ngamma\nbeta\nalpha\n",
     "twins": "polish Polish\nice-cream\tx-ray\nété 4x\n",
     "percent": "100%\n%d\nfifty%s\n%\n",
+    "twinsrev": "Polish polish turkey\nnato NATO radar\n",
     "layout": "one two  three\n\n four\r\nfive\n\n",
     "uncap": "4x\n7up\nUSA\n",
     "twinonly": "polish\nalpha\nPolish\nbeta\n",
@@ -143,6 +144,8 @@ def run(ctx):
         add("words", [("capitalize", c), ("list", "syllables")])
     for f in list(FILES) + ["missing"]:
         add("words", [("file", f), ("capitalize", "random"), ("separator", "none")])
+        add("words", [("file", f), ("capitalize", "random"), ("entropy", None), ("size", "2")])
+        add("words", [("file", f), ("size", "1"), ("separator", "comma")])
         add("words", [("file", f), ("entropy", None), ("capitalize", "one")])
     # the same command line in fresh processes (map iteration order differs per process): the answer must not
     for rep in range(10 if quick else 40):
